@@ -131,3 +131,33 @@ func uninterp[T any](name string, args ...any) T { var z T; return z }
 //@ props C17 C18
 //@ mode bv
 //@ ensures [C17] no-precision: precision < 0 ==> r0 == value
+
+//@ func ParseTime
+//@ props C17 C18
+//@ pure
+//@ ensures [C17] value-on-success: r1 ==> r0 != nil
+
+//@ func (*Date).Compare
+//@ props C17 C12
+//@ pure
+//@ ensures [C17] three-way: r0 >= -1 && r0 <= 1
+
+//@ func (*Time).Compare
+//@ props C17 C12
+//@ pure
+//@ ensures [C17] three-way: r0 >= -1 && r0 <= 1
+
+//@ func (*TimeTZ).Compare
+//@ props C17 C12
+//@ pure
+//@ ensures [C17] three-way: r0 >= -1 && r0 <= 1
+
+//@ func (*Timestamp).Compare
+//@ props C17 C12
+//@ pure
+//@ ensures [C17] three-way: r0 >= -1 && r0 <= 1
+
+//@ func (*TimestampTZ).Compare
+//@ props C17 C12
+//@ pure
+//@ ensures [C17] three-way: r0 >= -1 && r0 <= 1
